@@ -6,8 +6,9 @@ Driver.Getters — model side of the C16 ties (not part of any proof).
                                           type and path are the token text `Node::expand` / `Getter::collect`
                                           produce, printed without white space (T-gen);
 `getters run <gid> <opt|raw> <rule> <hex input>`
-                                        → `v=ok end=… get=<name>:<refs>|…  dir=<name>:<refs>|…` where `get` is
-                                          `flatten (evalGetter t content)` for every accessor of the rule and
+                                        → `v=ok end=… get=<name>:<refs>|…  st=<name>:<structured>|…  dir=<name>:<refs>|…`
+                                          where `get` is `flatten (evalGetter t content)` for every accessor of the rule,
+                                          `st` the unflattened result (`N`, `S(…)`, `V{…;…}`, `T{…;…}`, see `showG`) and
                                           `dir` is `directRefs` of the same names on the same value; each
                                           reference is printed as its token list (`Pairs::for_self_or_each_child`)
                                           so that rule structs, silent rules and built-ins are all observable.
@@ -68,15 +69,24 @@ def showTokens (g : NodeGrammar) (ts : List Token) : String :=
 def showRefs (g : NodeGrammar) (ws : List Val) : String :=
   ",".intercalate (ws.map fun w => showTokens g (tokens g w))
 
+/-- Canonical rendering of a structured accessor result: `N` / `S(…)` for `Option`, `V{…;…}` for `Vec`,
+`T{…;…}` for tuples, a reference as its token list. -/
+partial def showG (g : NodeGrammar) : GVal → String
+  | .ref v => showTokens g (tokens g v)
+  | .optNone => "N"
+  | .optSome r => "S(" ++ showG g r ++ ")"
+  | .vec rs => "V{" ++ ";".intercalate (rs.map (showG g)) ++ "}"
+  | .tuple rs => "T{" ++ ";".intercalate (rs.map (showG g)) ++ "}"
+
 def fuelFor (g : NodeGrammar) (input : List Char) : Nat :=
   4 * (input.length + 2) * (g.rules.length + 2) + 40
 
-def runRule (pg : PGrammar) (rule : String) (input : List Char) : String :=
+def runRule (pg : PGrammar) (rule : String) (input : List Char) (uni : Uni := fun _ _ => false) : String :=
   let g := gen pg
   match pg.indexOf rule, pg.find? (·.name = rule) with
   | some k, some pr =>
     let i : Inp := { start := 0, pos := 0, rest := input, after := [] }
-    match tryParsePartial g (fun _ _ => false) (fuelFor g input) (k+1) i with
+    match tryParsePartial g uni (fuelFor g input) (k+1) i with
     | .oof => "v=oof"
     | .fail _ => "v=fail"
     | .ok i' _ v =>
@@ -93,17 +103,21 @@ def runRule (pg : PGrammar) (rule : String) (input : List Char) : String :=
         x ++ ":" ++ (match content, refId pg x with
                      | some c, some xid => showRefs g (directRefs xid c)
                      | _, _ => "-"))
-      head ++ "\tget=" ++ get ++ "\tdir=" ++ dir
+      let st := "|".intercalate (gs.map fun (x, t) =>
+        x ++ ":" ++ (match ruleGetter t v with
+                     | some r => showG g r
+                     | none => "STUCK"))
+      head ++ "\tget=" ++ get ++ "\tst=" ++ st ++ "\tdir=" ++ dir
   | _, _ => "v=norule"
 
 /-- Entry point: the words after `getters <mode> <gid> <opt|raw>`; the grammar is looked up by the caller. -/
-def run (mode : String) (pg : Option PGrammar) (rest : List String) : String :=
+def run (mode : String) (pg : Option PGrammar) (rest : List String) (uni : Uni := fun _ _ => false) : String :=
   match pg with
   | none => "v=nogrammar"
   | some pg =>
     match mode, rest with
     | "list", [] => listGetters pg
-    | "run", [rule, hx] => runRule pg rule (unhex hx)
+    | "run", [rule, hx] => runRule pg rule (unhex hx) uni
     | _, _ => "v=badline"
 
 end Driver.GetterCases
